@@ -21,6 +21,9 @@ def handle (line : String) : String :=
       match genDispatch fn args with
       | some ws => if ws.isEmpty then "ok" else "ok " ++ fmtWords ws
       | none =>
+        match genDispatchLong fn args.toArray with
+        | some ws => if ws.isEmpty then "ok" else "ok " ++ fmtWords ws
+        | none =>
         match handDispatch fn args with
         | some s => s
         | none => "err unknown-op"
